@@ -5,7 +5,7 @@ export GOFLAGS=-mod=mod GOPROXY=off GOSUMDB=off GOTOOLCHAIN=local
 WT="$1"; V="$2"; S="$WT/seeded/$V"
 cd "$WT" || exit 2
 git checkout -q -- . ; git clean -fdq -- pub streams astool
-passset() { go test -json -vet=off -count=1 ./... 2>/dev/null | python3 -c '
+passset() { go test -json -vet=off -count=1 ./pub/... ./streams/... ./astool/... 2>/dev/null | python3 -c '
 import sys,json
 ok=set()
 for l in sys.stdin:
